@@ -100,19 +100,22 @@ func (h ErrorHandler) errorPage(w http.ResponseWriter, r *http.Request, code int
 		if contentType == "" {
 			contentType = "text/html; charset=utf-8"
 		}
+		// Read the page before the header goes out: once it is out, a
+		// page that cannot be read can no longer be replaced
+		page, err := io.ReadAll(errorPage)
+		if err != nil {
+			// Epic fail... sigh.
+			h.Log.Printf("[NOTICE %d %s] could not respond with %s: %v", code, r.URL.String(), pagePath, err)
+			httpserver.DefaultErrorFunc(w, r, code)
+			return
+		}
 		// Copy the page body into the response
 		w.Header().Set("Content-Type", contentType)
 		// the page replaces the body a handler may have announced before it gave up
 		w.Header().Del("Content-Length")
 		w.Header().Del("Content-Encoding")
 		w.WriteHeader(code)
-		_, err = io.Copy(w, errorPage)
-
-		if err != nil {
-			// Epic fail... sigh.
-			h.Log.Printf("[NOTICE %d %s] could not respond with %s: %v", code, r.URL.String(), pagePath, err)
-			httpserver.DefaultErrorFunc(w, r, code)
-		}
+		_, _ = w.Write(page)
 
 		return
 	}
